@@ -245,6 +245,11 @@ func (c *Container) Peek(n int) []byte {
 		return c.compartments[c.offset][:n]
 	}
 
+	// Never allocate more than is held: n may come from an unvalidated length prefix.
+	if length := c.Length(); n > length {
+		n = length
+	}
+
 	// Start gathering data.
 	slice := make([]byte, n)
 	copySlice := slice
